@@ -58,14 +58,16 @@ ROWSELS = [("slice", 1, None, None), ("slice", None, None, 2), ("slice", None, N
            ("intarr", (-1, 0)), ("bycol", "prev"),
            # several selectors at once: rows[s1, s2] (documented as rows[s1].rows[s2])
            ("multi", "rev_tail"), ("multi", "mask_first")]
-COLSELS = ["x", "x y", ["y"], "x+y", "x+2*y", "o", ["x", "x*x"], "m y", "sign*2", ["sign", "x*sign"]]
+COLSELS = ["x", "x y", ["y"], "x+y", "x+2*y", "o", ["x", "x*x"], "m y", "sign*2", ["sign", "x*sign"],
+           # a column whose name CONTAINS the name of the index column ('name'), selected by a string
+           "yname", "x yname"]
 
 
 def universe():
     ops = [("rows",) + r for r in ROWSELS]
     ops += [("cols", c) for c in COLSELS]
     ops += [("add",), ("mul", 1), ("mul", 2), ("concat",), ("copy",), ("t",),
-            ("setcol", "x", "double"), ("setcol", "y", "const"), ("newcol", "z"), ("setscalar",), ("setcell", "x"), ("peek",),
+            ("setcol", "x", "double"), ("setcol", "y", "const"), ("newcol", "z"), ("newcol", "yname"), ("setscalar",), ("setcell", "x"), ("peek",),
             ("concat_sub",), ("evalexpr",), ("concat_any",)]
     return ops
 
@@ -123,6 +125,8 @@ class System(simple.SimpleSystem):
                     continue
             elif k == "cols":
                 if any(c not in m.cols for e in expr_cols(op[1]) for c in needs(e)):
+                    continue
+                if any(e.isidentifier() and e not in m.cols for e in expr_cols(op[1])):
                     continue
                 if any(("+" in e or "*" in e) and "o" in needs(e) for e in expr_cols(op[1])):
                     continue
